@@ -362,8 +362,10 @@ pub fn run(p: &Params, rep: &mut Report) {
     }
     let mut rng = p.rng(14);
     let n = p.size(8000, 80_000);
-    for _ in 0..n {
-        let spec = gen_wellformed(&mut rng, p.thorough);
+    for it in 0..n {
+        // one in forty: a covered state with a superfluous default to an otherwise unreachable state
+        // (build() may refuse it; an automaton it returns must still describe only real transitions)
+        let spec = if it % 40 == 39 { gen_superfluous_default(&mut rng) } else { gen_wellformed(&mut rng, p.thorough) };
         let seed = rng.next();
         let text = spec.to_text();
         rep.eval(Some(&text));
